@@ -18,7 +18,8 @@ RULE = ("Cases: a generated file set in a per-case temporary directory for one o
         "of traces/files, line ending, header scaling and orientation metadata, explicit degrees_from_north or none; a negative "
         "variant (count mismatch, missing / duplicated component, unrecognisable bytes); and a read() call over 1-4 recordings "
         "with degrees_from_north and obspy_read_kwargs each given as None, once, or per recording. Non-trivial = the three "
-        "components differ pairwise and the order is not the identity; distinct by SHA-1 of the case.")
+        "components differ pairwise and the order is not the identity; distinct by SHA-1 of the case."
+        ' SAF headers carry 0-150 comment lines in drawn positions and shuffled keyword order, some are conversions of MiniShark files (two-reader files). Scale pass: 2^12-2^17 samples per component.')
 ASSUMPTIONS = [
     "binary formats are written with obspy.Stream.write (obspy's codecs are trusted); text formats by emitters that follow the example files and the readers' documented layout",
     "SAF files whose channel 1 is the vertical are read only with an explicit degrees_from_north (the reader documents this refusal); with E on channel 1 the orientation is asserted modulo 180 only",
